@@ -424,7 +424,8 @@ fn remap(t: &OwnedTerm, pool: &[String]) -> OwnedTerm {
 }
 
 /// one history: `len` messages from a sender with its own cache; tie, spec oracle, resolution check
-fn history(ctx: &mut Ctx, tag: &str, len: usize, idx_space: u64, seg_space: u64, faults: bool) {
+fn history(ctx: &mut Ctx, tag: &str, len: usize, idx_space: u64, seg_space: u64, fault: u8) {
+    let faults = fault == 1;
     let mut pool: Vec<String> = vec!["ok", "error", "rex", "", "é", "x@h", "Elixir.Foo", "undefined", "b", "node@host"]
         .into_iter().map(String::from).collect();
     if ctx.rng.chance(1, 3) {
@@ -450,10 +451,25 @@ fn history(ctx: &mut Ctx, tag: &str, len: usize, idx_space: u64, seg_space: u64,
         if ctx.rng.chance(5, 6) {
             terms.push(remap(&gen_term(&mut ctx.rng, &cfg, 0), &pool));
         }
-        let Some(want): Option<Vec<OwnedTerm>> = terms.iter().map(norm).collect() else { continue };
+        // fault 2: a conforming message whose header is fine but whose payload the library refuses (nested deeper than
+        // its limit): the sender's cache moves on, so the receiver's must too, or later references go wrong
+        let body_refused = fault == 2 && k + 1 == len / 2 + 1;
+        if body_refused {
+            ctx.count("hist_fault_body_refused");
+            let mut deep = OwnedTerm::Tuple(vec![OwnedTerm::Atom(Atom::new(ctx.rng.pick(&pool).as_str())), OwnedTerm::Atom(Atom::new(ctx.rng.pick(&pool).as_str()))]);
+            for _ in 0..300 {
+                deep = OwnedTerm::List(vec![deep]);
+            }
+            terms.truncate(1);
+            terms.push(deep);
+        }
+        let want: Vec<OwnedTerm> = if body_refused { vec![] } else {
+            let Some(w): Option<Vec<OwnedTerm>> = terms.iter().map(norm).collect() else { continue };
+            w
+        };
         let before = sender.slots.clone();
         let mut bytes = sender.send(&mut ctx.rng, &terms, &mut stats);
-        let mut expect_ok = true;
+        let mut expect_ok = !body_refused;
         if faults && k + 1 == len / 2 + 1 && bytes[2] > 0 {
             // a non-conforming message in the middle: a reference (without text) to a slot nobody filled
             ctx.count("hist_fault_unfilled_slot");
@@ -477,7 +493,7 @@ fn history(ctx: &mut Ctx, tag: &str, len: usize, idx_space: u64, seg_space: u64,
                     msgs.iter().chain(std::iter::once(&hex(&bytes))).cloned().collect::<Vec<_>>().join(",")));
             }
             intended.push(want.iter().map(term_text).collect::<Vec<_>>().join("&"));
-        } else if s.starts_with("ok") {
+        } else if s.starts_with("ok") && !body_refused {
             ctx.fail("c14-unfilled-slot-accepted", &format!("{} -> {}", hex(&bytes), s));
         }
         msgs.push(hex(&bytes));
@@ -579,7 +595,8 @@ pub fn run(ctx: &mut Ctx) {
     for i in 0..ctx.n(300, 12000) {
         let len = 1 + ctx.rng.below(8) as usize;
         let (idx_space, seg_space) = *ctx.rng.pick(&[(256u64, 8u64), (4, 8), (2, 2), (1, 1), (256, 1), (3, 8)]);
-        history(ctx, "hist", len, idx_space, seg_space, i % 10 == 9);
+        let len = if i % 10 == 8 { len.max(3) } else { len };
+        history(ctx, "hist", len, idx_space, seg_space, match i % 10 { 9 => 1, 8 => 2, _ => 0 });
     }
     // D. malformed and truncated headers, each followed by a well-formed message on the same cache
     let good = erltf::encode_with_dist_header_multi(&[&OwnedTerm::Tuple(vec![OwnedTerm::Integer(2), OwnedTerm::Atom(Atom::new("ok"))]), &OwnedTerm::Atom(Atom::new("rex"))]).unwrap();
